@@ -7,7 +7,11 @@
    that the volatile state and the decisions taken on failed reads leave no trace either.  The
    model has a flag [repaired]; the theorems are about the code as repaired (true), the
    [_refuted] witnesses show the three places where the code as found (false) violated the
-   property (all three replayed on the implementation by checks/C18.py before the repairs). *)
+   property (all three replayed on the implementation by checks/C18.py before the repairs).
+   Later repairs have switches of their own: Import.f_keystore_undo / FaultReload's mem_undo (96d76da: the
+   cached keystore is repaired in memory, not by a reload that can fail) and the four switches of
+   Ledger/FaultSwallow.v (9c52567, 2491e9d, 3ddfb4f, 9a3951f: storage errors txmgr took for answers);
+   the theorems are stated for the code as it stands, the witnesses for the old switch values. *)
 From Coq Require Import List ZArith NArith Bool.
 Import ListNotations.
 Open Scope Z_scope.
@@ -60,8 +64,9 @@ Theorem C18_fault_retry_equiv_block : forall p own n st b f,
 Proof. intros p own n st b f Hf. split; [apply process_fault_keeps|apply announce_retry_equiv]; exact Hf. Qed.
 Print Assumptions C18_fault_retry_equiv_block.
 
-(* T6 the last round of a removal: any single fault, and (as repaired) a failing commit followed
-   by a failing reload, are retried until the keystore and the status record are gone *)
+(* T6 the last round of a removal: any single fault, and (as repaired in 33294fa) a failing commit followed
+   by a failing reload, are retried until the keystore and the status record are gone.  (The model of the
+   code between 33294fa and 96d76da; for the code as it stands see T6' and R1 below.) *)
 Theorem C18_removal_single_fault : forall repaired c l,
   (c = false \/ l = false) ->
   remove_attempts repaired [(c, l); (false, false)] r0 = ({| r_store := false; r_cache := false |}, true).
@@ -72,6 +77,14 @@ Theorem C18_removal_double_fault :
   remove_attempts true [(true, true); (false, false)] r0 = ({| r_store := false; r_cache := false |}, true).
 Proof. exact remove_double_fault_repaired. Qed.
 Print Assumptions C18_removal_double_fault.
+
+(* T6' the code as it stands (96d76da: RestoreCachedKeystore puts the keystore back without touching the
+   store): ANY sequence of storage failures in the last round — Commit and / or reload, any number in a
+   row — followed by working storage completes the removal *)
+Theorem C18_removal_any_faults_mem_undo : forall fs,
+  remove_attempts_undo (fs ++ [(false, false)]) r0 = ({| r_store := false; r_cache := false |}, true).
+Proof. exact remove_any_faults_undo. Qed.
+Print Assumptions C18_removal_any_faults_mem_undo.
 
 (* ---------------------------------------------------------------- the code as found *)
 
@@ -264,7 +277,7 @@ Proof. exact process_fault_retry_model. Qed.
 Print Assumptions C18_fault_retry_equiv_process_model.
 
 (* I2 the same with the pending set (C09's model): memory = mempool and expiredMempool, updated after
-   the commit *)
+   the commit.  (That EVERY call of a step returns its error holds of the code since 3ddfb4f: S3 below) *)
 Theorem C18_fault_retry_equiv_pending_process : forall p a3fix own n b hs,
   (forall k u, (k < ncalls (pprocess_op p a3fix own n b) (Pending.h_store hs) (hs_mem hs))%nat ->
      attempt qfault (pprocess_op p a3fix own n b) (Fault k u) (Pending.h_store hs) (hs_mem hs) =
@@ -300,7 +313,8 @@ Theorem C18_fault_retry_equiv_xprocess : forall fx p n b st m,
 Proof. exact xprocess_fault_retry. Qed.
 Print Assumptions C18_fault_retry_equiv_xprocess.
 
-(* I5 one batch of a background import (any batch size), one call per block of the batch *)
+(* I5 one batch of a background import (any batch size), one call per block of the batch.  (That EVERY call
+   inside such a step returns its error holds of the code since 9c52567 and 2491e9d: S1, S2 below) *)
 Theorem C18_fault_retry_equiv_import_batch : forall fx p n B w st m, f_import_retry fx = true ->
   (forall k u, (k < ncalls (import_op fx p n B w) st m)%nat ->
      attempt IRetry (import_op fx p n B w) (Fault k u) st m = (st, m, inl IRetry)) /\
@@ -324,13 +338,14 @@ Theorem C18_fault_retry_equiv_import_start : forall w pass shs st m, coherent st
 Proof. exact import_start_fault_retry. Qed.
 Print Assumptions C18_fault_retry_equiv_import_start.
 
-(* I7 NewAddress on the multi-wallet store: the address enters the table inside the closure; the repair
-   reloads the keystore from the store — as long as that reload does not fail itself (flag false) *)
-Theorem C18_fault_retry_equiv_new_address_gen : forall sh w st m, coherent st m ->
-  (forall k, (k < ncalls (new_address_op sh w) st m)%nat ->
-     attempt tt (new_address_op sh w) (Fault k false) st m = (st, m, inl tt)) /\
-  (forall fs, Forall (fun f => fundo f = false) fs ->
-     retry tt (new_address_op sh w) fs st m =
+(* I7 NewAddress on the multi-wallet store, the code as it stands (96d76da, f_keystore_undo = true): the address
+   enters the table inside the closure; after a failure ForgetAddresses takes it out again — no database
+   access, so the flag "the storage fails again during the repair" is arbitrary: a fault at ANY call leaves
+   store and table as before, and after ANY sequence of faults the repeated call issues the address *)
+Theorem C18_fault_retry_equiv_new_address_gen : forall fx sh w st m, f_keystore_undo fx = true -> coherent st m ->
+  (forall k u, (k < ncalls (new_address_op fx sh w) st m)%nat ->
+     attempt tt (new_address_op fx sh w) (Fault k u) st m = (st, m, inl tt)) /\
+  (forall fs, retry tt (new_address_op fx sh w) fs st m =
      (Import.new_address st sh w, x_keys (Import.new_address st sh w), inr tt)).
 Proof. exact new_address_fault_retry. Qed.
 Print Assumptions C18_fault_retry_equiv_new_address_gen.
@@ -353,13 +368,13 @@ Theorem C18_fault_retry_equiv_remove_phase1 : forall w st m,
 Proof. exact phase1_fault_retry. Qed.
 Print Assumptions C18_fault_retry_equiv_remove_phase1.
 
-(* I10 EVERY round of phase 2 of a removal, whatever the cap; in the last round DeleteKeystore drops the
-   keystore from the table inside the closure and the repair reloads it (flag false: that reload works) *)
-Theorem C18_fault_retry_equiv_remove_round : forall fx n cap lookup w st m, coherent st m ->
-  (forall k, (k < ncalls (round_op fx n cap lookup w) st m)%nat ->
-     attempt tt (round_op fx n cap lookup w) (Fault k false) st m = (st, m, inl tt)) /\
-  (forall fs, Forall (fun f => fundo f = false) fs ->
-     retry tt (round_op fx n cap lookup w) fs st m =
+(* I10 EVERY round of phase 2 of a removal, whatever the cap, the code as it stands (96d76da): in the last round
+   DeleteKeystore drops the keystore from the table inside the closure and RestoreCachedKeystore puts it
+   back after a failure, without database access: any fault, any flag *)
+Theorem C18_fault_retry_equiv_remove_round : forall fx n cap lookup w st m, f_keystore_undo fx = true -> coherent st m ->
+  (forall k u, (k < ncalls (round_op fx n cap lookup w) st m)%nat ->
+     attempt tt (round_op fx n cap lookup w) (Fault k u) st m = (st, m, inl tt)) /\
+  (forall fs, retry tt (round_op fx n cap lookup w) fs st m =
      (fst (remove_round fx cap n lookup st w), x_keys (fst (remove_round fx cap n lookup st w)),
       inr (snd (remove_round fx cap n lookup st w)))).
 Proof. exact round_fault_retry. Qed.
@@ -367,23 +382,54 @@ Print Assumptions C18_fault_retry_equiv_remove_round.
 
 (* I11 whole histories of the multi-wallet layer (the event system of C07/C08: the node's chain moves,
    announcements, wallets created / restored / removed, addresses issued, background batches and
-   rounds, restarts): EVERY operation of EVERY history may fail at ANY call ANY number of times in a
-   row; the run ends in the state of the run without faults and the in-memory table is the store's.
-   [reloads_work]: no fault of a NewAddress or of a removal round carries the flag "the repairing
-   reload fails as well" (see R1, R2 below for what happens then) *)
-Theorem C18_fault_history_wallets : forall fx p B cap, f_import_retry fx = true ->
-  forall n h, reloads_work h ->
+   rounds, restarts), the code as it stands: EVERY operation of EVERY history may fail at ANY call ANY
+   number of times in a row, with the storage failing again during any repair; the run ends in the
+   state of the run without faults and the in-memory table is the store's.  No premise on the faults
+   any more ([reloads_work] was one until 96d76da: I11' below) *)
+Theorem C18_fault_history_wallets : forall fx p B cap, f_import_retry fx = true -> f_keystore_undo fx = true ->
+  forall n h,
   xrun_f fx p B cap n h =
   (xrun fx p B cap n (map fst h), x_keys (xs_st (xrun fx p B cap n (map fst h)))).
-Proof. exact xrun_faults. Qed.
+Proof. intros fx p B cap H1 H2 n h. exact (xrun_faults fx p B cap H1 n h H2). Qed.
 Print Assumptions C18_fault_history_wallets.
 
 (* -------------------------------------------------------------------------------------------------
-   Where the repair itself can fail. *)
+   Where the repair itself could fail: the code BEFORE 96d76da (f_keystore_undo = false; Fault.remove_attempts
+   true).  Historical: the statements below are about the repairs of f6a5978 (NewAddress) and 33294fa
+   (removal), which reloaded the keystore from the store — a read that can fail.  They are kept as the
+   witnesses for the old switch value; 96d76da removed the reload (I7, I10, I11, T6' above). *)
 
-(* R1 the last round of a removal, ANY number of faults (Ledger/Fault.v: per attempt "the Commit
+(* I7' / I10' / I11' what held then: the theorems above with the premise that no reload fails itself *)
+Theorem C18_fault_retry_equiv_new_address_reload : forall fx sh w st m, f_keystore_undo fx = false -> coherent st m ->
+  (forall k, (k < ncalls (new_address_op fx sh w) st m)%nat ->
+     attempt tt (new_address_op fx sh w) (Fault k false) st m = (st, m, inl tt)) /\
+  (forall fs, Forall (fun f => fundo f = false) fs ->
+     retry tt (new_address_op fx sh w) fs st m =
+     (Import.new_address st sh w, x_keys (Import.new_address st sh w), inr tt)).
+Proof. exact new_address_fault_retry_reload. Qed.
+Print Assumptions C18_fault_retry_equiv_new_address_reload.
+
+Theorem C18_fault_retry_equiv_remove_round_reload : forall fx n cap lookup w st m, f_keystore_undo fx = false -> coherent st m ->
+  (forall k, (k < ncalls (round_op fx n cap lookup w) st m)%nat ->
+     attempt tt (round_op fx n cap lookup w) (Fault k false) st m = (st, m, inl tt)) /\
+  (forall fs, Forall (fun f => fundo f = false) fs ->
+     retry tt (round_op fx n cap lookup w) fs st m =
+     (fst (remove_round fx cap n lookup st w), x_keys (fst (remove_round fx cap n lookup st w)),
+      inr (snd (remove_round fx cap n lookup st w)))).
+Proof. exact round_fault_retry_reload. Qed.
+Print Assumptions C18_fault_retry_equiv_remove_round_reload.
+
+Theorem C18_fault_history_wallets_reload : forall fx p B cap, f_import_retry fx = true -> f_keystore_undo fx = false ->
+  forall n h, reloads_work h ->
+  xrun_f fx p B cap n h =
+  (xrun fx p B cap n (map fst h), x_keys (xs_st (xrun fx p B cap n (map fst h)))).
+Proof. intros fx p B cap H1 H2 n h Hw. exact (xrun_faults_reload fx p B cap H1 n h H2 Hw). Qed.
+Print Assumptions C18_fault_history_wallets_reload.
+
+(* R1 (before 96d76da) the last round of a removal, ANY number of faults (Ledger/Fault.v: per attempt "the Commit
    fails", "the reload fails").  The statement "any sequence of faults followed by working storage
-   completes the removal" is FALSE of the code as repaired; what holds is the exact condition: *)
+   completes the removal" was FALSE of the code as repaired in 33294fa (it is T6' for the code as it
+   stands); what held is the exact condition: *)
 Theorem C18_removal_any_faults : forall fs cached,
   remove_attempts true (fs ++ [(false, false)]) {| r_store := true; r_cache := cached |} =
   if reloads_recover cached fs
@@ -421,22 +467,22 @@ Proof. exact removal_any_faults_refuted. Qed.
 Print Assumptions C18_removal_any_faults_refuted.
 
 (*    the same on the model of the rounds (Ledger/Remove.v): Commit of the last round fails, then the reload *)
-Theorem C18_removal_round_reload_fault : forall fx n cap lookup w st m, coherent st m ->
+Theorem C18_removal_round_reload_fault : forall fx n cap lookup w st m, f_keystore_undo fx = false -> coherent st m ->
   snd (remove_round fx cap n lookup st w) = true ->
   attempt tt (round_op fx n cap lookup w) (Fault (ncalls (round_op fx n cap lookup w) st m - 1) true) st m =
   (st, drop_wallet w m, inl tt).
 Proof. exact round_reload_fault. Qed.
 Print Assumptions C18_removal_round_reload_fault.
 
-(* R2 NewAddress as repaired (f6a5978): a call of the closure or the Commit fails AND the reload that
+(* R2 (before 96d76da) NewAddress as repaired in f6a5978: a call of the closure or the Commit fails AND the reload that
    repairs the table fails too (its BeginReadTx; the error of that View is dropped): the WHOLE keystore
    is gone from the in-memory table although it is in the store.  Two consecutive storage failures;
    replayed on the implementation (fault plan last0 with two consecutive failing calls for NewAddress):
    Wallets() then answers "account not found", NewAddress repeated with working storage fails again
    ("account not found"), and until the next restart filterTx does not recognise the wallet's
    addresses, so blocks are committed without its payments and are never rescanned. *)
-Theorem C18_new_address_reload_fault : forall sh w st m k, coherent st m -> (1 <= k < 5)%nat ->
-  attempt tt (new_address_op sh w) (Fault k true) st m = (st, drop_wallet w (x_keys st), inl tt).
+Theorem C18_new_address_reload_fault : forall fx sh w st m k, f_keystore_undo fx = false -> coherent st m -> (1 <= k < 5)%nat ->
+  attempt tt (new_address_op fx sh w) (Fault k true) st m = (st, drop_wallet w (x_keys st), inl tt).
 Proof. exact new_address_reload_fault. Qed.
 Print Assumptions C18_new_address_reload_fault.
 
@@ -465,14 +511,20 @@ Proof.
   - vm_compute. repeat split; reflexivity.
 Qed.
 
+(* the code before 96d76da: every repair in place, the cached keystore repaired by a reload *)
+Definition reload_repair : fixes :=
+  {| f_removable := true; f_rollback := true; f_import_retry := true; f_start_reorg := true; f_rollback_order := true;
+     f_import_tipcheck := true; f_removable_debit := true; f_ff_check := true; f_keystore_undo := false |}.
+
 (* a history of the multi-wallet layer in which every operation fails first, some several times, at
-   the first call, in the middle, at the Commit, with or without a failing repair read: wallet 1
+   the first call, in the middle, at the Commit, with the storage failing again during the repair or not
+   (also for NewAddress and the removal rounds, where that second failure used to lose the keystore): wallet 1
    created, an address issued and paid, wallet 2 restored with one address and rescanned, wallet 1
    removed (request, phase 1, a capped round and the last round) — the end state is that of the
    history without faults: wallet 1 is gone from store and table, wallet 2 is ready with its coin *)
 Definition hist_f : list (xevent * list fault) :=
   [ (XNewWallet 1 7, [Fault 2 true; Fault 0 false]);
-    (XNewAddr 9 1, [Fault 4 false; Fault 1 false]);
+    (XNewAddr 9 1, [Fault 4 true; Fault 1 true]);
     (XAttach blk1, []);
     (XProcess blk1, [Fault 2 false]);
     (XImportStart 2 8 [7%N], [Fault 4 true]);
@@ -481,20 +533,30 @@ Definition hist_f : list (xevent * list fault) :=
     (XProcess blk2, [Fault 3 true]);
     (XRemoveReq 1 7, [Fault 1 true]);
     (XPhase1 1, [Fault 4 true; Fault 5 false]);
-    (XRound 1, [Fault 3 false]);
-    (XRound 1, [Fault 6 false; Fault 2 false]) ].
+    (XRound 1, [Fault 3 true]);
+    (XRound 1, [Fault 6 true; Fault 2 false]) ].
 
 Example C18_history_faults_example :
-  reloads_work hist_f /\
+  f_keystore_undo repaired = true /\
   let r := xrun_f repaired p0 1000 1 [g0] hist_f in
   r = (xrun repaired p0 1000 1 [g0] (map fst hist_f), x_keys (xs_st (xrun repaired p0 1000 1 [g0] (map fst hist_f)))) /\
   snd r = [(7, 2)]%N /\ status_of (xs_st (fst r)) 1 = None /\ status_of (xs_st (fst r)) 2 = Some WReady /\
   gross_balance (x_w (xs_st (fst r))) 2%N = 5 /\ fst (tip (x_w (xs_st (fst r)))) = 2.
 Proof.
   split.
-  - unfold reloads_work, hist_f. repeat constructor.
+  - reflexivity.
   - vm_compute. repeat split; reflexivity.
 Qed.
+
+(*    the code before 96d76da on a history with ONE such pair of failures (the Commit of a NewAddress, then
+      the reload): the run ends with a table that has lost address 9 of wallet 1 although the store has it;
+      the code as it stands ends coherent *)
+Example C18_history_faults_before_96d76da :
+  let h := [ (XNewWallet 1 7, []); (XNewAddr 9 1, []); (XNewAddr 10 1, [Fault 4 true]) ] in
+  snd (xrun_f reload_repair p0 1000 1 [g0] h) = [(10, 1)]%N /\
+  x_keys (xs_st (fst (xrun_f reload_repair p0 1000 1 [g0] h))) = [(9, 1); (10, 1)]%N /\
+  snd (xrun_f repaired p0 1000 1 [g0] h) = [(9, 1); (10, 1)]%N.
+Proof. vm_compute. repeat split; reflexivity. Qed.
 
 (* every call of CreateWallet / ImportWallet can be the failing one: five numbered calls *)
 Example C18_import_start_faults_example :
@@ -519,13 +581,14 @@ Example C18_removal_many_faults_example :
   reloads_recover true [(true, false); (true, true); (false, true); (true, false)] = false.
 Proof. repeat split; reflexivity. Qed.
 
-(* R2 on a concrete wallet: wallet 1 has address 9; NewAddress (address 10) fails at the Commit and the
+(* R2 on a concrete wallet (before 96d76da): wallet 1 has address 9; NewAddress (address 10) fails at the Commit and the
    reload fails: the store is unchanged, the call reports the failure, but the table no longer knows
    address 9 — block 1, which pays 5 to address 9, is then accepted with nothing credited, where the
-   coherent table credits 5 *)
+   coherent table credits 5.  The code as it stands: the same two failures leave the table as it was *)
 Theorem C18_new_address_reload_fault_refuted :
   let st := xs_st (xrun repaired p0 1000 1 [g0] [XNewWallet 1 7; XNewAddr 9 1]) in
-  let '(st', m', r) := attempt tt (new_address_op 10 1) (Fault 4 true) st (x_keys st) in
+  let '(st', m', r) := attempt tt (new_address_op reload_repair 10 1) (Fault 4 true) st (x_keys st) in
+  attempt tt (new_address_op repaired 10 1) (Fault 4 true) st (x_keys st) = (st, x_keys st, inl tt) /\
   coherent st (x_keys st) /\ st' = st /\ r = inl tt /\
   own_of (x_keys st) 9%N = Some 1%N /\ own_of m' 9%N = None /\
   gross_balance (process_or_keep p0 true (own_of (x_keys st)) [g0; blk1] (init_state 0) blk1) 1%N = 5 /\
@@ -535,19 +598,20 @@ Proof. vm_compute. repeat split; reflexivity. Qed.
 Print Assumptions C18_new_address_reload_fault_refuted.
 
 (* ==================================================================================================
-   The reload that repairs a failed NewAddress can fail PARTIALLY (Ledger/FaultReload.v, proofs in
+   A load of the keystore can fail PARTIALLY (Ledger/FaultReload.v, proofs in
    Ledger/FaultReloadProofs.v).  keystore.loadAddrManager drops the error of fetchChildNum: a keystore
-   (re)loaded while exactly that read fails — in the repair of a failed NewAddress, in ImportWallet /
-   ImportWalletWithMnemonic, at start-up — is a good keystore whose in-memory mirror of the next child
+   (re)loaded while exactly that read fails — in ImportWallet / ImportWalletWithMnemonic, at start-up and,
+   until 96d76da, in the reload that repaired a failed NewAddress — is a good keystore whose in-memory mirror of the next child
    number says 0 while the store keeps the true number.  [run from_store evs s]: the events [evs]
    (NewAddress calls, each without fault or failing at any call of its transaction with the reload
    ending completely [LoadOk], with the child-number read lost [LoadPartial] or not at all [LoadFails];
    loads of the keystore outside a NewAddress) on the keystore state [s] (stored child number, rows,
    the in-memory table entry with its mirror); the result: the final state and the addresses handed
    out.  [from_store = true] is the code as it is (nextAddresses reads the child number from the store
-   inside the transaction), [false] the variant that takes it from the mirror.  [mem_undo = false] is the
-   code as it is (a failed NewAddress reloads the keystore from the store), [true] the proposed repair
-   fix-c18f (the addresses are taken out of the in-memory table again; no reload, nothing that can fail). *)
+   inside the transaction), [false] the variant that takes it from the mirror.  [mem_undo = true] is the
+   code as it stands (96d76da = the repair proposed with this model: the addresses are taken out of the
+   in-memory table again; no reload, nothing that can fail; the switch Import.f_keystore_undo of I7),
+   [false] the code before (f6a5978: a failed NewAddress reloaded the keystore from the store). *)
 Require MW.Ledger.FaultReload MW.Ledger.FaultReloadProofs.
 
 (* M1 (generalises T4) no skipped or duplicated address index, the code as it is: for EVERY sequence of
@@ -561,8 +625,8 @@ Theorem C18_address_indices_partial_reload : forall derive mem_undo evs s,
 Proof. exact FaultReloadProofs.run_indices. Qed.
 Print Assumptions C18_address_indices_partial_reload.
 
-(*    ... their number is the number of calls not struck by a fault, as long as no reload loses the
-      keystore altogether (what happens then: R2 above) *)
+(*    ... (before 96d76da) their number is the number of calls not struck by a fault, as long as no reload loses
+      the keystore altogether (what happened then: R2 above); for the code as it stands: M5 *)
 Theorem C18_address_count_partial_reload : forall derive evs s,
   FaultReload.s_cache s <> None -> FaultReload.no_load_fails evs ->
   length (snd (FaultReload.run derive true false evs s)) = FaultReload.clean_calls evs /\
@@ -617,11 +681,11 @@ Theorem C18_new_address_mirror_refuted :
 Proof. exact FaultReloadProofs.new_address_mirror_refuted. Qed.
 Print Assumptions C18_new_address_mirror_refuted.
 
-(* M5 where the reload fails altogether (the code as it is; = R2 above in this model): one address issued,
+(* M5 where the reload failed altogether (the code BEFORE 96d76da; = R2 above in this model): one address issued,
    the second call fails and its reload fails too (BeginReadTx: dropped silently; another read: the process
-   exits at the FATAL log): the keystore is out of the table and the third call fails although storage
-   works.  With the in-memory repair it succeeds, and in general no fault of a NewAddress can lose the
-   keystore: every call not struck by a fault hands out an address *)
+   exited at the FATAL log): the keystore is out of the table and the third call fails although storage
+   works.  With the in-memory repair (the code as it stands) it succeeds, and in general no fault of a
+   NewAddress can lose the keystore: every call not struck by a fault hands out an address *)
 Theorem C18_new_address_lost_keystore_refuted :
   FaultReload.run FaultReloadProofs.derive0 true false FaultReloadProofs.evs_c FaultReloadProofs.fresh =
     ({| FaultReload.s_next := 1; FaultReload.s_rows := [(0%nat, 100%N)]; FaultReload.s_cache := None |}, [100%N]) /\
@@ -636,6 +700,17 @@ Theorem C18_address_count_mem_undo : forall derive evs s,
 Proof. exact FaultReloadProofs.run_count_mem_undo. Qed.
 Print Assumptions C18_address_count_mem_undo.
 
+(*    the mirror variant on the code as it stands (= seeded change C18b): shape (a) of M4 is gone with the reload,
+      shape (b) — a keystore loaded by an import or at start-up while the child-number read fails — remains *)
+Theorem C18_new_address_mirror_refuted_mem_undo :
+  snd (FaultReload.run FaultReloadProofs.derive0 false true FaultReloadProofs.evs_a FaultReloadProofs.fresh) = [100; 101; 102; 103]%N /\
+  snd (FaultReload.run FaultReloadProofs.derive0 false true FaultReloadProofs.evs_b FaultReloadProofs.three) = [100]%N /\
+  FaultReload.s_next (fst (FaultReload.run FaultReloadProofs.derive0 false true FaultReloadProofs.evs_b FaultReloadProofs.three)) = 1%nat /\
+  snd (FaultReload.run FaultReloadProofs.derive0 true true FaultReloadProofs.evs_b FaultReloadProofs.three) = [103]%N /\
+  FaultReload.s_next (fst (FaultReload.run FaultReloadProofs.derive0 true true FaultReloadProofs.evs_b FaultReloadProofs.three)) = 4%nat.
+Proof. exact FaultReloadProofs.new_address_mirror_refuted_mem_undo. Qed.
+Print Assumptions C18_new_address_mirror_refuted_mem_undo.
+
 (* non-vacuity of M1: faults of every kind, a lost keystore and a restart in between; five calls succeed *)
 Example C18_partial_reload_example :
   FaultReload.run FaultReloadProofs.derive0 true false
@@ -648,3 +723,98 @@ Example C18_partial_reload_example :
         FaultReload.s_cache := Some {| FaultReload.c_addrs := [104; 103; 102; 101; 100]%N; FaultReload.c_mirror := 5 |} |},
      [100; 101; 102; 103; 104]%N).
 Proof. vm_compute. reflexivity. Qed.
+
+(* ==================================================================================================
+   Four storage errors that txmgr took for answers (Ledger/FaultSwallow.v, proofs in FaultSwallowProofs.v).
+   The programs of I1–I11 let every database call return the injected error; one call there stands for all
+   the calls of a step.  Inside the steps four calls did not return theirs until 9c52567 (the put that appends
+   to a block record in an import step: a second, shadowing err), 2491e9d (the read behind existsTxRecord:
+   "no record"), 3ddfb4f (the read of the spenders of an outpoint: "no spender") and 9a3951f (the delete of an
+   unmined-input row in a removal round: "_ ="), found by faulting every distinct call target of the
+   implementation once and comparing the whole database with the fault-free run's.  Each has a switch in
+   [tfixes] (true = the code as it stands); the step is modelled with a fault AT THAT CALL. *)
+Require MW.Ledger.FaultSwallow MW.Ledger.FaultSwallowProofs.
+
+(* S1, S2 an import batch with a fault at ANY call of ANY transaction it inserts — the block-record put and the
+   transaction-record read included —, the code as it stands: the fault does not strike, or the batch reports
+   "retry" with the store exactly as before (the repeated batch is then the batch of the model: I5) *)
+Theorem C18_fault_import_step_calls : forall tf fx p B n st w f,
+  FaultSwallow.t_brec_put tf = true -> FaultSwallow.t_txrec_get tf = true ->
+  FaultSwallow.import_batch_f tf fx p B n st w f = import_batch fx p B n st w \/
+  FaultSwallow.import_batch_f tf fx p B n st w f = (st, IRetry).
+Proof. exact FaultSwallowProofs.import_batch_f_repaired. Qed.
+Print Assumptions C18_fault_import_step_calls.
+
+(*    before 9c52567: wallet 1 (address 9) ready, wallet 2 (address 7) just restored; block 1 (coinbase 1 paying
+      both, transaction 6 paying address 7) processed for wallet 1: its block record lists transaction 1.  The
+      rescan of wallet 2 appends transaction 6 and that put fails: the batch reports success, wallet 2 is ready
+      with 5, the block record still lists transaction 1 only; block 1 is reorganised away and the credit of
+      transaction 6 stays — wallet 2 reports 3 where the run without the fault reports 0 *)
+Theorem C18_import_brec_put_refuted :
+  x_brecs (xs_st FaultSwallowProofs.sw_pre) = [{| br_h := 1; br_bid := 1; br_txs := [1%N] |}] /\
+  snd (FaultSwallowProofs.sw_batch FaultSwallow.t_as_found (Some (6%N, FaultSwallow.ICBrecPut))) = IOk /\
+  status_of (fst (FaultSwallowProofs.sw_batch FaultSwallow.t_as_found (Some (6%N, FaultSwallow.ICBrecPut)))) 2 = Some WReady /\
+  x_brecs (fst (FaultSwallowProofs.sw_batch FaultSwallow.t_as_found (Some (6%N, FaultSwallow.ICBrecPut)))) = [{| br_h := 1; br_bid := 1; br_txs := [1%N] |}] /\
+  x_brecs (fst (FaultSwallowProofs.sw_batch FaultSwallow.t_as_found None)) = [{| br_h := 1; br_bid := 1; br_txs := [1%N; 6%N] |}] /\
+  gross_balance (x_w (fst (FaultSwallowProofs.sw_batch FaultSwallow.t_as_found (Some (6%N, FaultSwallow.ICBrecPut))))) 2%N = 5 /\
+  gross_balance (x_w (FaultSwallowProofs.sw_reorg (fst (FaultSwallowProofs.sw_batch FaultSwallow.t_as_found (Some (6%N, FaultSwallow.ICBrecPut)))))) 2%N = 3 /\
+  gross_balance (x_w (FaultSwallowProofs.sw_reorg (fst (FaultSwallowProofs.sw_batch FaultSwallow.t_as_found None)))) 2%N = 0 /\
+  tip (x_w (FaultSwallowProofs.sw_reorg (fst (FaultSwallowProofs.sw_batch FaultSwallow.t_as_found (Some (6%N, FaultSwallow.ICBrecPut)))))) = (2, 3%N) /\
+  FaultSwallowProofs.sw_batch FaultSwallow.t_repaired (Some (6%N, FaultSwallow.ICBrecPut)) = (xs_st FaultSwallowProofs.sw_pre, IRetry).
+Proof. exact FaultSwallowProofs.import_brec_put_refuted. Qed.
+Print Assumptions C18_import_brec_put_refuted.
+
+(*    before 2491e9d: the read of the record of transaction 1 (recorded for wallet 1) fails during the rescan of
+      wallet 2: "no record", and the block record lists transaction 1 twice *)
+Theorem C18_import_txrec_get_refuted :
+  snd (FaultSwallowProofs.sw_batch FaultSwallow.t_as_found (Some (1%N, FaultSwallow.ICTxrecGet))) = IOk /\
+  x_brecs (fst (FaultSwallowProofs.sw_batch FaultSwallow.t_as_found (Some (1%N, FaultSwallow.ICTxrecGet)))) = [{| br_h := 1; br_bid := 1; br_txs := [1%N; 1%N; 6%N] |}] /\
+  x_brecs (fst (FaultSwallowProofs.sw_batch FaultSwallow.t_as_found None)) = [{| br_h := 1; br_bid := 1; br_txs := [1%N; 6%N] |}] /\
+  FaultSwallowProofs.sw_batch FaultSwallow.t_repaired (Some (1%N, FaultSwallow.ICTxrecGet)) = (xs_st FaultSwallowProofs.sw_pre, IRetry).
+Proof. exact FaultSwallowProofs.import_txrec_get_refuted. Qed.
+Print Assumptions C18_import_txrec_get_refuted.
+
+(* S3 connecting a block (the model with the pending set) with the read of the spenders registered under ANY outpoint
+   failing, the code as it stands: the fault does not strike, or the block fails and nothing is committed (the
+   announcement is refused and repeated: I2) *)
+Theorem C18_fault_connect_spenders_read : forall tf p own n cum s b k,
+  FaultSwallow.t_spenders_get tf = true ->
+  FaultSwallow.p_connect_block_f tf p own n cum s b k = Pending.p_connect_block p own n cum s b \/
+  FaultSwallow.p_connect_block_f tf p own n cum s b k = Pending.PErr (Pending.PE EOther).
+Proof. intros tf p own n cum s b k H. exact (FaultSwallowProofs.p_connect_block_f_repaired tf p own H n cum s b k). Qed.
+Print Assumptions C18_fault_connect_spenders_read.
+
+(*    before 3ddfb4f (the history of C09_example_conflict): the unconfirmed transaction 10 spends the wallet's coin
+      (1,0); block 3' confirms transaction 11, which spends it too.  Without fault transaction 10 is removed as a
+      conflict; with the read of the spenders of (1,0) taken for "no spender" the block is connected and transaction
+      10, its registration as spender and its unmined credit stay in the store *)
+Theorem C18_spenders_get_refuted :
+  FaultSwallowProofs.SpEx.view (Pending.p_connect_block FaultSwallowProofs.SpEx.p (own_of (Pending.q_own FaultSwallowProofs.SpEx.sim))
+     (Pending.q_node FaultSwallowProofs.SpEx.sim) (Pending.ps_unmined FaultSwallowProofs.SpEx.s) FaultSwallowProofs.SpEx.s FaultSwallowProofs.SpEx.b3')
+    = Some ([], [], []) /\
+  FaultSwallowProofs.SpEx.view (FaultSwallowProofs.SpEx.conn FaultSwallow.t_as_found) = Some ([10%N], [(1, 0)%N], [(10, 0)%N]) /\
+  FaultSwallowProofs.SpEx.conn FaultSwallow.t_repaired = Pending.PErr (Pending.PE EOther).
+Proof. exact FaultSwallowProofs.spenders_get_refuted. Qed.
+Print Assumptions C18_spenders_get_refuted.
+
+(* S4 the credit walk of a removal round (removeRelevantCredit: per coin of the wallet the credit row, then the
+   unmined-input row) as a program of the uniform fault model, the code as it stands: a fault at ANY call fails
+   the round with the store as before, and after any faults the repeated round is the round without fault
+   (an instance of G1; the rounds of the model: I10) *)
+Theorem C18_fault_retry_equiv_remove_walk : forall tf ops s m, FaultSwallow.t_rm_input_del tf = true ->
+  (forall k u, (k < ncalls (FaultSwallow.rm_walk_op tf ops) s m)%nat ->
+     attempt tt (FaultSwallow.rm_walk_op tf ops) (Fault k u) s m = (s, m, inl tt)) /\
+  (forall fs, retry tt (FaultSwallow.rm_walk_op tf ops) fs s m = attempt tt (FaultSwallow.rm_walk_op tf ops) NoFault s m).
+Proof. exact FaultSwallowProofs.rm_walk_fault_retry. Qed.
+Print Assumptions C18_fault_retry_equiv_remove_walk.
+
+(*    before 9a3951f: the delete of the unmined-input row of coin 1 fails: the round reports success and the row stays *)
+Theorem C18_rm_input_del_refuted :
+  let s := {| FaultSwallow.rm_credits := [1; 2]%N; FaultSwallow.rm_uinputs := [1; 2]%N |} in
+  attempt tt (FaultSwallow.rm_walk_op FaultSwallow.t_as_found [1; 2]%N) (Fault 2 false) s tt
+    = ({| FaultSwallow.rm_credits := []; FaultSwallow.rm_uinputs := [1%N] |}, tt, inr tt) /\
+  attempt tt (FaultSwallow.rm_walk_op FaultSwallow.t_as_found [1; 2]%N) NoFault s tt
+    = ({| FaultSwallow.rm_credits := []; FaultSwallow.rm_uinputs := [] |}, tt, inr tt) /\
+  attempt tt (FaultSwallow.rm_walk_op FaultSwallow.t_repaired [1; 2]%N) (Fault 2 false) s tt = (s, tt, inl tt).
+Proof. exact FaultSwallowProofs.rm_input_del_refuted. Qed.
+Print Assumptions C18_rm_input_del_refuted.
